@@ -1610,8 +1610,15 @@ class QueryBuilder(Selectable, Term):
             if groupby_alias and field.alias and field.alias in selected_aliases:
                 clauses.append(format_quotes(field.alias, alias_quote_char or quote_char))
             else:
+                # groupby_alias is a named parameter here: hand it on, a sub-query below a GROUP BY item must see it too
                 clauses.append(
-                    field.get_sql(quote_char=quote_char, alias_quote_char=alias_quote_char, subquery=True, **kwargs)
+                    field.get_sql(
+                        quote_char=quote_char,
+                        alias_quote_char=alias_quote_char,
+                        groupby_alias=groupby_alias,
+                        subquery=True,
+                        **kwargs,
+                    )
                 )
 
         sql = " GROUP BY {groupby}".format(groupby=",".join(clauses))
